@@ -63,6 +63,16 @@ var hostileTokens = []string{"(", ")", "[", "]", "{", "}", "|", "|>", "=>", ":="
 	"\"", "'", "`", "\\", "/*", "*/", "//", "\n", "\x00", "\xff", "é", "/(/", "/[/", "/a**/", "*(", "\"\\u\"", "f\"{", "f\"{{", "${", "a[", "a[:", "a[1:", "a.b.", "?.", "=~",
 	"const x = x", "func f(x): (f(x))", "op o(): (o())", "type t = t", "yield f(", "over this => (", "from (", "pool", "file", "get http://", "format", "@", "pass"}
 
+// substWords replace identifier/number tokens: names of functions, aggregators,
+// operators and types, this-paths, numbers at type boundaries.
+var substWords = []string{"this", "a", "b", "x", "a.b", "this.a", "count", "sum", "avg", "min", "max", "collect", "union", "any", "and", "or", "dcount", "fuse", "map", "every",
+	"typeof", "typeunder", "nameof", "kind", "len", "has", "missing", "error", "is_error", "quiet", "cast", "shape", "fill", "crop", "order", "fit", "flatten", "unflatten", "fields",
+	"grep", "regexp", "regexp_replace", "replace", "split", "join", "trim", "lower", "upper", "levenshtein", "parse_uri", "parse_zson", "hex", "base64", "network_of", "cidr_match",
+	"now", "bucket", "strftime", "abs", "ceil", "floor", "log", "pow", "round", "sqrt", "coalesce", "compare", "nest_dotted", "under", "rune_len", "ksuid", "has_error",
+	"int8", "int16", "int32", "int64", "uint8", "uint16", "uint32", "uint64", "float16", "float32", "float64", "bool", "bytes", "string", "ip", "net", "type", "null", "time", "duration",
+	"sort", "head", "tail", "uniq", "pass", "yield", "put", "cut", "drop", "rename", "where", "search", "summarize", "over", "fork", "switch", "merge", "combine", "join", "sample", "load", "output", "explode", "top", "assert", "debug", "from", "file", "get",
+	"0", "1", "-1", "255", "256", "65536", "2147483648", "9223372036854775807", "18446744073709551615", "1.5", "1e308", "1h", "1ns", "2020-01-01T00:00:00Z", "10.0.0.1", "10.0.0.0/8", "true", "false", "null"}
+
 func applyQScript(q, partner string, script []QMut) string {
 	toks := tokens(q)
 	ptoks := tokens(partner)
@@ -112,6 +122,17 @@ func applyQScript(q, partner string, script []QMut) string {
 			toks = append(toks[:i:i], ptoks[j:]...)
 		case "trunc":
 			toks = toks[:at(m.Pos, len(toks)+1)]
+		case "subst": // replace the N-th word-like token at or after Pos by Text
+			if len(toks) > 0 {
+				start := at(m.Pos, len(toks))
+				for k := 0; k < len(toks); k++ {
+					i := (start + k) % len(toks)
+					if r := []rune(toks[i]); len(r) > 0 && (unicode.IsLetter(r[0]) || unicode.IsDigit(r[0]) || r[0] == '_') {
+						toks[i] = m.Text
+						break
+					}
+				}
+			}
 		}
 	}
 	return strings.Join(toks, "")
@@ -129,7 +150,7 @@ func genQuery(t *rapid.T) Case {
 	}
 	c.Query = rapid.SampledFrom(pool).Draw(t, "query")
 	n := rapid.SampledFrom([]int{0, 1, 1, 1, 2, 2, 3, 4, 6}).Draw(t, "nmut")
-	ops := []string{"del", "del", "dup", "dup", "swap", "ins", "ins", "ins", "splice", "trunc"}
+	ops := []string{"del", "del", "dup", "dup", "swap", "ins", "ins", "ins", "splice", "trunc", "subst", "subst", "subst", "subst"}
 	for i := 0; i < n; i++ {
 		m := QMut{Op: rapid.SampledFrom(ops).Draw(t, "op"), Pos: rapid.IntRange(0, 400).Draw(t, "pos")}
 		switch m.Op {
@@ -144,6 +165,22 @@ func genQuery(t *rapid.T) Case {
 			m.N = rapid.IntRange(0, 400).Draw(t, "other")
 		case "ins":
 			m.Text = rapid.SampledFrom(hostileTokens).Draw(t, "token")
+		case "subst":
+			if rapid.Bool().Draw(t, "fromword") {
+				m.Text = rapid.SampledFrom(substWords).Draw(t, "word")
+			} else {
+				// a word-like token of another program
+				var words []string
+				for _, tk := range tokens(rapid.SampledFrom(pool).Draw(t, "donor")) {
+					if r := []rune(tk); len(r) > 0 && (unicode.IsLetter(r[0]) || unicode.IsDigit(r[0]) || r[0] == '_') {
+						words = append(words, tk)
+					}
+				}
+				if len(words) == 0 {
+					words = substWords
+				}
+				m.Text = rapid.SampledFrom(words).Draw(t, "donorword")
+			}
 		case "splice":
 			if c.QPartner == "" {
 				c.QPartner = rapid.SampledFrom(pool).Draw(t, "partner")
